@@ -867,7 +867,14 @@ func (a *analysis) checkApply(x *verifkit.Exec) {
 	for _, pr := range a.p.Procs {
 		storedGen[pr.ID] = "g0"
 	}
+	type applied struct {
+		idx, beginSeq, retSeq int
+		base, stored          string
+	}
+	var okApplies []applied
+	beginOf := map[int]verifkit.Event{}
 	applying := 0
+	overlapped := false
 	opensDuring, teardownsDuring := 0, 0
 	var begin verifkit.Event
 	settled := true // false while an apply is in flight (the switch happens somewhere inside)
@@ -875,8 +882,12 @@ func (a *analysis) checkApply(x *verifkit.Exec) {
 		switch {
 		case e.Comp == "ctl" && e.Kind == "apply.begin":
 			applying++
+			if applying > 1 {
+				overlapped = true // two applies in flight: opens / teardowns cannot be attributed to one of them
+			}
 			settled = false
 			begin = e
+			beginOf[e.Idx] = e
 			opensDuring, teardownsDuring = 0, 0
 		case (isSource(e.Comp) || isDest(e.Comp)) && e.Kind == "open" && applying > 0:
 			opensDuring++
@@ -884,8 +895,10 @@ func (a *analysis) checkApply(x *verifkit.Exec) {
 			teardownsDuring++
 		case e.Comp == "ctl" && e.Kind == "apply.ret":
 			applying--
+			wasOverlapped := overlapped
 			if applying == 0 {
 				settled = true
+				overlapped = false
 			}
 			f := strings.Split(e.Arg, "|")
 			errText := f[0]
@@ -904,6 +917,14 @@ func (a *analysis) checkApply(x *verifkit.Exec) {
 					storedGen[kv[:i]] = kv[i+1:]
 				}
 			}
+			if errText == "nil" {
+				b := beginOf[e.Idx]
+				base := ""
+				if k := strings.Index(b.Arg, "|base="); k >= 0 {
+					base = b.Arg[k+6:]
+				}
+				okApplies = append(okApplies, applied{idx: e.Idx, beginSeq: b.Seq, retSeq: e.Seq, base: base, stored: stored})
+			}
 			refused := strings.Contains(errText, "stale") || strings.Contains(errText, "requires operator authorization")
 			if strings.Contains(spec, "+stale") && !strings.Contains(errText, "stale") {
 				a.bad("C16/stale-plan-applied", "the state changed between plan and apply but ApplyPlanLive did not refuse the plan as stale (returned %q) (event #%d)", errText, e.Seq)
@@ -912,7 +933,7 @@ func (a *analysis) checkApply(x *verifkit.Exec) {
 				a.bad("C16/running-pipeline-touched-without-authorisation", "a running pipeline was changed by a live apply without operator authorisation (event #%d)", e.Seq)
 			}
 			if refused {
-				if opensDuring+teardownsDuring > 0 {
+				if opensDuring+teardownsDuring > 0 && !wasOverlapped {
 					a.bad("C16/refused-apply-touched-the-run", "the apply was refused (%s) but connectors were opened/torn down during it (%d/%d)", errText, opensDuring, teardownsDuring)
 				}
 				g := fmt.Sprintf("g%d", e.Idx)
@@ -925,6 +946,15 @@ func (a *analysis) checkApply(x *verifkit.Exec) {
 			name := strings.SplitN(strings.TrimPrefix(e.Comp, "proc:"), "#", 2)[0]
 			if want, ok := storedGen[name]; ok && genOf(e.Arg) != "" && genOf(e.Arg) != want {
 				a.bad("C16/running-config-differs-from-stored", "record %d was processed by processor %s with configuration %s while the stored configuration says %s (event #%d): after the apply the running pipeline and the stored configuration disagree", e.Idx, name, genOf(e.Arg), want, e.Seq)
+			}
+		}
+	}
+	// a plan computed against a configuration that another (successful) apply replaced in the meantime is stale: applies of
+	// one pipeline are serialised, so if apply i returned between j's planning and j's return, j ran after i
+	for _, j := range okApplies {
+		for _, i := range okApplies {
+			if i.idx != j.idx && i.retSeq > j.beginSeq && i.retSeq < j.retSeq && i.stored != j.base && i.stored != "" && j.base != "" {
+				a.bad("C16/stale-plan-applied", "apply #%d was planned against the stored configuration %q; apply #%d then changed it to %q and returned (event #%d), yet apply #%d was not refused as stale and returned nil (event #%d)", j.idx, j.base, i.idx, i.stored, i.retSeq, j.idx, j.retSeq)
 			}
 		}
 	}
